@@ -18,6 +18,9 @@ theorem pure_ok {α : Type} {a b : α} : (pure a : M α) = .ok b ↔ a = b := by
 theorem throw_ok {α : Type} {e : String} {b : α} : (throw e : M α) = .ok b ↔ False := by
   simp [throw, throwThe, MonadExceptOf.throw]
 
+theorem failIf_ok {c : Bool} {msg : String} {u : Unit} : failIf c msg = .ok u ↔ c = false := by
+  unfold failIf; cases c <;> simp [pure, Except.pure, throw, throwThe, MonadExceptOf.throw]
+
 /-- sum of the segment sizes -/
 def segSum : List Seg → Nat
   | [] => 0
@@ -51,15 +54,130 @@ theorem segSum_replace (segs : List Seg) (old new : Seg) (h : old ∈ segs) :
 
 /-- normalise a hypothesis `(do …) = .ok r` -/
 macro "msimp" "at" h:ident : tactic =>
-  `(tactic| simp only [bind_ok, pure_ok, throw_ok, false_and, and_false, exists_false, Prod.mk.injEq] at $h:ident)
+  `(tactic| simp only [bind_ok, pure_ok, throw_ok, failIf_ok, false_and, and_false, exists_false] at $h:ident)
+
+/-- drop the leading components of a nested `∃ a, x = .ok a ∧ …` until the last conjunct remains -/
+macro "mlast" h:ident : tactic => `(tactic| repeat (first
+  | (obtain ⟨_, $h:ident⟩ : ∃ _, _ := $h:ident)
+  | (obtain ⟨_, $h:ident⟩ : _ ∧ _ := $h:ident)))
 
 theorem init_top_fp {s s' : St} {ptr size : Nat} (h : init_top s ptr size = .ok s') :
     s'.footprint = s.footprint ∧ s'.segs = s.segs ∧ s'.evs = s.evs ∧ s'.osq = s.osq := by
   unfold init_top at h
+  dsimp only at h
+  msimp at h
+  mlast h
+  subst h; exact ⟨rfl, rfl, rfl, rfl⟩
+
+
+/-! ### bytes obtained from / returned to the OS according to the recorded calls -/
+
+def got : List OsEv → Nat
+  | [] => 0
+  | .mmap len (some _) :: es => len + got es
+  | _ :: es => got es
+
+def gave : List OsEv → Nat
+  | [] => 0
+  | .munmap _ len true :: es => len + gave es
+  | .mremap _ old new true :: es => (old - new) + gave es
+  | _ :: es => gave es
+
+theorem got_append (a b : List OsEv) : got (a ++ b) = got a + got b := by
+  induction a with
+  | nil => simp [got]
+  | cons e es ih =>
+    cases e with
+    | mmap len res => cases res <;> simp [got, ih] <;> omega
+    | mremap => simp [got, ih]
+    | munmap => simp [got, ih]
+
+theorem gave_append (a b : List OsEv) : gave (a ++ b) = gave a + gave b := by
+  induction a with
+  | nil => simp [gave]
+  | cons e es ih =>
+    cases e with
+    | mmap => simp [gave, ih]
+    | mremap _ _ _ ok => cases ok <;> simp [gave, ih] <;> omega
+    | munmap _ _ ok => cases ok <;> simp [gave, ih] <;> omega
+
+/-- bookkeeping relation between two states of one run: the footprint moved exactly by what the
+segment list gained/lost, and exactly by what the OS calls recorded in between obtained/returned -/
+structure Book (s s' : St) : Prop where
+  fp : s'.footprint + segSum s.segs = s.footprint + segSum s'.segs
+  os : s'.footprint + gave s'.evs + got s.evs = s.footprint + got s'.evs + gave s.evs
+
+theorem Book.refl (s : St) : Book s s := ⟨rfl, by omega⟩
+
+theorem Book.trans {a b c : St} (h1 : Book a b) (h2 : Book b c) : Book a c := by
+  obtain ⟨f1, o1⟩ := h1
+  obtain ⟨f2, o2⟩ := h2
+  exact ⟨by omega, by omega⟩
+
+theorem Book.of_same {s s' : St} (h1 : s'.footprint = s.footprint) (h2 : s'.segs = s.segs)
+    (h3 : s'.evs = s.evs) : Book s s' := by
+  constructor
+  · rw [h1, h2]
+  · rw [h1, h3]; omega
+
+theorem popM_spec {s s' : St} {len : Nat} {res : Option Nat} (h : popM s len = .ok (res, s')) :
+    ∃ q, s.osq = .m res :: q ∧ s' = { s with osq := q, evs := s.evs ++ [.mmap len res] } := by
+  unfold popM at h
+  split at h
+  · rename_i r q hq
+    msimp at h
+    simp only [Prod.mk.injEq] at h
+    obtain ⟨h1, h2⟩ := h
+    subst h1; exact ⟨q, hq, h2.symm⟩
+  · msimp at h
+
+theorem popR_spec {s s' : St} {a o n : Nat} {ok : Bool} (h : popR s a o n = .ok (ok, s')) :
+    ∃ q, s.osq = .r ok :: q ∧ s' = { s with osq := q, evs := s.evs ++ [.mremap a o n ok] } := by
+  unfold popR at h
+  split at h
+  · rename_i r q hq
+    msimp at h
+    simp only [Prod.mk.injEq] at h
+    obtain ⟨h1, h2⟩ := h
+    subst h1; exact ⟨q, hq, h2.symm⟩
+  · msimp at h
+
+theorem popU_spec {s s' : St} {a l : Nat} {ok : Bool} (h : popU s a l = .ok (ok, s')) :
+    ∃ q, s.osq = .u ok :: q ∧ s' = { s with osq := q, evs := s.evs ++ [.munmap a l ok] } := by
+  unfold popU at h
+  split at h
+  · rename_i r q hq
+    msimp at h
+    simp only [Prod.mk.injEq] at h
+    obtain ⟨h1, h2⟩ := h
+    subst h1; exact ⟨q, hq, h2.symm⟩
+  · msimp at h
+
+/-- `prepend_alloc` only works on the heap part -/
+theorem prepend_alloc_spec {s s' : St} {nb ob size mem : Nat}
+    (h : prepend_alloc s nb ob size = .ok (s', mem)) : ∃ h', s' = { s with h := h' } := by
+  unfold prepend_alloc at h
+  dsimp only at h
+  msimp at h
+  mlast h
+  simp only [Prod.mk.injEq] at h
+  exact ⟨_, h.1.symm⟩
+
+theorem add_segment_spec {s s' : St} {tbase tsize : Nat} (h : add_segment s tbase tsize = .ok s') :
+    s'.footprint = s.footprint ∧ s'.evs = s.evs ∧ s'.osq = s.osq ∧ segSum s'.segs = segSum s.segs + tsize := by
+  unfold add_segment at h
+  dsimp only at h
   split at h
   · msimp at h
   · msimp at h
-    obtain ⟨_, _, _, _, _, _, h⟩ := h
-    subst h; exact ⟨rfl, rfl, rfl, rfl⟩
+    obtain ⟨_, _, _, _, s1, hs1, h⟩ := h
+    have h1 := init_top_fp hs1
+    mlast h
+    subst h
+    refine ⟨h1.1, h1.2.2.1, h1.2.2.2, ?_⟩
+    simp only [h1.2.1]
+    cases s.segs with
+    | nil => simp [segSum]
+    | cons g gs => simp [segSum]; omega
 
 end TinyVerif.Dl
